@@ -90,3 +90,148 @@ pub fn reference_trace(design: &Design, stim: &Stimulus) -> RefTrace {
     tr.stats = sim.stats.clone();
     tr
 }
+
+/// One observable variable of the elaborated design, for localising a
+/// disagreement: hierarchical path, defining item, reference values.
+#[derive(Clone, Debug)]
+pub struct DeepVar {
+    /// `v3`, `un7.v2`
+    pub path: String,
+    /// module index and item index (into `Module::items`) that drives it;
+    /// `None` for inputs
+    pub module: usize,
+    pub item: Option<usize>,
+    pub decl: DeclId,
+    /// driven by an `always_ff`
+    pub is_ff: bool,
+}
+
+fn item_targets(m: &Module, it: &Item) -> Vec<DeclId> {
+    fn stmts(ss: &[Stmt], out: &mut Vec<DeclId>) {
+        for s in ss {
+            match s {
+                Stmt::Assign { lhs, .. } => out.push(lhs.decl),
+                Stmt::AssignConcat { lhs, .. } => out.extend(lhs.iter().map(|r| r.decl)),
+                Stmt::If { then, els, .. } => {
+                    stmts(then, out);
+                    stmts(els, out);
+                }
+                Stmt::Case { arms, default, .. } => {
+                    for (_, b) in arms {
+                        stmts(b, out);
+                    }
+                    if let Some(d) = default {
+                        stmts(d, out);
+                    }
+                }
+                Stmt::Switch { arms, default } => {
+                    for (_, b) in arms {
+                        stmts(b, out);
+                    }
+                    if let Some(d) = default {
+                        stmts(d, out);
+                    }
+                }
+                Stmt::For { body, .. } => stmts(body, out),
+                Stmt::Display { .. } | Stmt::Return(_) => {}
+            }
+        }
+    }
+    let mut out = vec![];
+    match it {
+        Item::Assign { lhs, .. } => out.push(lhs.decl),
+        Item::Let { decl, .. } => out.push(*decl),
+        Item::AlwaysComb(b) => stmts(b, &mut out),
+        Item::AlwaysFf { reset, body, .. } => {
+            stmts(reset, &mut out);
+            stmts(body, &mut out);
+        }
+        Item::Inst { conns, .. } => {
+            for (_, c) in conns {
+                if let Conn::Out(d) = c {
+                    out.push(*d);
+                }
+            }
+        }
+    }
+    out.sort();
+    out.dedup();
+    out.retain(|d| !matches!(m.decls[*d].kind, DeclKind::LoopVar));
+    out
+}
+
+fn deep_vars_of(design: &Design, module: usize, prefix: &str, ffs: &mut Vec<DeepVar>, comb: &mut Vec<DeepVar>) {
+    let m = &design.modules[module];
+    for (ii, it) in m.items.iter().enumerate() {
+        let is_ff = matches!(it, Item::AlwaysFf { .. });
+        if let Item::Inst { name, module: cm, .. } = it {
+            deep_vars_of(design, *cm, &format!("{prefix}{name}."), ffs, comb);
+        }
+        for d in item_targets(m, it) {
+            let v = DeepVar {
+                path: format!("{prefix}{}", m.decls[d].name),
+                module,
+                item: Some(ii),
+                decl: d,
+                is_ff,
+            };
+            if is_ff { ffs.push(v) } else { comb.push(v) }
+        }
+    }
+}
+
+/// Every driven variable of the design: flip-flops first, then
+/// combinational variables in dependency order.
+pub fn deep_vars(design: &Design) -> Vec<DeepVar> {
+    let mut ffs = vec![];
+    let mut comb = vec![];
+    deep_vars_of(design, design.top, "", &mut ffs, &mut comb);
+    ffs.extend(comb);
+    ffs
+}
+
+/// Reference values (element 0) of `vars` after every step of `stim`.
+pub fn reference_deep(design: &Design, stim: &Stimulus, vars: &[DeepVar]) -> Vec<Vec<Val>> {
+    let (ins, _) = port_specs(design);
+    let mut sim = RefSim::new(design);
+    let mut out = vec![];
+    for st in &stim.steps {
+        for ((id, _), v) in ins.iter().zip(&st.values) {
+            sim.set_input(*id, v);
+        }
+        if stim.clock.is_some() {
+            sim.step(st.reset);
+        } else {
+            sim.settle();
+        }
+        let row = vars
+            .iter()
+            .map(|dv| {
+                // walk the instance tree along the path
+                let mut inst = &sim.root;
+                let segs: Vec<&str> = dv.path.split('.').collect();
+                for seg in &segs[..segs.len() - 1] {
+                    let m = &design.modules[inst.module];
+                    let mut k = 0;
+                    let mut found = None;
+                    for it in &m.items {
+                        if let Item::Inst { name, .. } = it {
+                            if name == seg {
+                                found = Some(k);
+                                break;
+                            }
+                            k += 1;
+                        }
+                    }
+                    match found {
+                        Some(k) => inst = &inst.children[k],
+                        None => return Val::unknown(1),
+                    }
+                }
+                inst.vals[dv.decl][0].clone()
+            })
+            .collect();
+        out.push(row);
+    }
+    out
+}
